@@ -12,6 +12,7 @@ import (
 	"sort"
 	"strconv"
 	"testing"
+	"time"
 
 	"pgregory.net/rapid"
 )
@@ -41,6 +42,7 @@ type c09Op struct {
 	R    int    `json:"r,omitempty"`    // get/erase/flip: record selector
 	C    int    `json:"c,omitempty"`    // tail/erase: repeat C+1 times
 	Dead bool   `json:"dead,omitempty"` // get/erase: address an id that is already erased / 0
+	Keep bool   `json:"keep,omitempty"` // erase: spare the most recently stored second of the shard
 	Bit  int    `json:"bit,omitempty"`  // flip: bit selector
 	Off  []int  `json:"off,omitempty"`  // crash: per shard offset inside the last record (-1: no tear)
 	Enum int    `json:"enum,omitempty"` // crash: 1 = additionally check truncation offsets of the torn record on copies of the image (every offset if the record is small, a sample otherwise)
@@ -76,6 +78,27 @@ func c09Get(d *DiskBucketStorage, si int, id int64, tm uint32) ([]byte, error) {
 		c09GetBuf = scratch[:0]
 	}
 	return got, err
+}
+
+// c09Tail guards against an implementation that spins forever inside the tail reader (a mutant's wrong
+// position arithmetic on a bare-header record): reported as inconclusive, never as a violation.
+func c09Tail(t vpT, d *DiskBucketStorage, si int) (uint32, int64) {
+	type res struct {
+		tm uint32
+		id int64
+	}
+	ch := make(chan res, 1)
+	go func() {
+		tm, id := d.ReadNextTailBucket(si)
+		ch <- res{tm, id}
+	}()
+	select {
+	case r := <-ch:
+		return r.tm, r.id
+	case <-time.After(60 * time.Second):
+		t.Fatalf("VP-INCONCLUSIVE ReadNextTailBucket did not return within 60 s (endless loop in the tail reader?)")
+		return 0, 0
+	}
 }
 
 // ----- model -----
@@ -343,7 +366,7 @@ func c09DrainCheck(t vpT, root string, snap c09Snap, where string, res *c09Resul
 		}
 		ids := map[int64]bool{}
 		for i := range seq {
-			tm, id := d.ReadNextTailBucket(si)
+			tm, id := c09Tail(t, d, si)
 			if id == 0 {
 				t.Fatalf("%s: shard %d re-read stops after %d of %d seconds (missing second %d that was put, not erased and not torn)", where, si, i, len(seq), seq[i].rec.time)
 			}
@@ -357,7 +380,7 @@ func c09DrainCheck(t vpT, root string, snap c09Snap, where string, res *c09Resul
 			seq[i].id = id
 		}
 		for k := 0; k < 2; k++ {
-			if tm, id := d.ReadNextTailBucket(si); id != 0 || tm != 0 {
+			if tm, id := c09Tail(t, d, si); id != 0 || tm != 0 {
 				t.Fatalf("%s: shard %d re-read returns extra second %d id %d after the %d expected ones (erased or torn second came back)", where, si, tm, id, len(seq))
 			}
 		}
@@ -597,6 +620,9 @@ func c09Prop(t vpT, c c09Case) c09Result {
 				t.Fatalf("bad case")
 			}
 			data := c09Payload(op.Seed, op.N)
+			if op.N == 0 {
+				res.classes["zero-body-put"] = true
+			}
 			if sh.writing != nil && sh.writing.size+c09Hdr+int64(op.N) > c09RotateAt {
 				old := sh.writing
 				sh.writing.writing = false
@@ -655,6 +681,18 @@ func c09Prop(t vpT, c c09Case) c09Result {
 			}
 			for rep := 0; rep < reps; rep++ {
 				ks := knownRecs(sh)
+				if op.K == "erase" && op.Keep && len(ks) > 0 {
+					last := 0
+					for i, kr := range ks {
+						if kr.id > ks[last].id {
+							last = i
+						}
+					}
+					ks = append(append([]*c09Rec{}, ks[:last]...), ks[last+1:]...)
+					if len(ks) == 0 {
+						break
+					}
+				}
 				var r *c09Rec
 				var id int64
 				if op.Dead || len(ks) == 0 {
@@ -735,7 +773,7 @@ func c09Prop(t vpT, c c09Case) c09Result {
 					f.reading = false
 					sh.rdFile++
 				}
-				tm, id := d.ReadNextTailBucket(si)
+				tm, id := c09Tail(t, d, si)
 				if exp == nil {
 					if id != 0 || tm != 0 {
 						t.Fatalf("%s: tail returned second %d id %d, expected end of queue (erased or torn second came back)", where, tm, id)
@@ -891,6 +929,35 @@ func c09Prop(t vpT, c c09Case) c09Result {
 					res.classes["torn-first-record-of-file"] = true
 				}
 			}
+			for _, s2 := range m.shards {
+				for _, f := range s2.files {
+					if f.gone {
+						continue
+					}
+					var lastRec *c09Rec
+					others, othersDead := 0, 0
+					for _, r := range f.recs {
+						if r.torn {
+							continue
+						}
+						if lastRec != nil {
+							others++
+							if lastRec.erased {
+								othersDead++
+							}
+						}
+						lastRec = r
+					}
+					if lastRec != nil && lastRec.live() && lastRec.size == 0 {
+						res.classes["zero-body-last-in-file-at-reopen"] = true
+						if others == 0 {
+							res.classes["zero-body-only-record-at-reopen"] = true
+						} else if others == othersDead {
+							res.classes["zero-body-last-others-erased-at-reopen"] = true
+						}
+					}
+				}
+			}
 			newSession()
 			if m.imageSize() <= c09CopyLimit {
 				verifyImage(m.snapshot(), nil, where+": re-read of the image")
@@ -960,7 +1027,10 @@ func c09Gen() *rapid.Generator[c09Case] {
 		for i := range lastPutSize {
 			lastPutSize[i] = -1
 		}
-		size := func() int {
+		size := func(pz int) int {
+			if rapid.IntRange(0, 99).Draw(t, "zero") < pz {
+				return 0 // the API accepts an empty body: the record is a bare header
+			}
 			if bigMode && rapid.IntRange(0, 9).Draw(t, "big") < 7 {
 				if rapid.IntRange(0, 3).Draw(t, "bigclass") == 0 {
 					return rapid.IntRange(9<<20, 17<<20).Draw(t, "bigsize")
@@ -969,7 +1039,7 @@ func c09Gen() *rapid.Generator[c09Case] {
 			}
 			switch rapid.IntRange(0, 9).Draw(t, "sizeclass") {
 			case 0:
-				return rapid.IntRange(1, 3).Draw(t, "size") // callers store framed compressed buckets, never an empty body
+				return rapid.IntRange(1, 3).Draw(t, "size")
 			case 1, 2, 3, 4, 5:
 				return rapid.IntRange(1, 64).Draw(t, "size")
 			case 6, 7:
@@ -980,8 +1050,8 @@ func c09Gen() *rapid.Generator[c09Case] {
 				return rapid.IntRange(4097, 65536).Draw(t, "size")
 			}
 		}
-		put := func(s int) c09Op {
-			n := size()
+		put := func(s int, pz int) c09Op {
+			n := size(pz)
 			lastPutSize[s] = n
 			return c09Op{K: "put", S: s, T: uint32(rapid.IntRange(1, 12).Draw(t, "time")), Seed: rapid.Uint64Range(1, 1<<20).Draw(t, "seed"), N: n}
 		}
@@ -1026,7 +1096,7 @@ func c09Gen() *rapid.Generator[c09Case] {
 			}
 			switch kind {
 			case 0:
-				c.Ops = append(c.Ops, put(s))
+				c.Ops = append(c.Ops, put(s, 6))
 				known[s]++
 			case 1:
 				c.Ops = append(c.Ops, c09Op{K: "get", S: s, R: rapid.IntRange(0, 50).Draw(t, "r"), Dead: rapid.IntRange(0, 7).Draw(t, "dead") == 0})
@@ -1052,6 +1122,13 @@ func c09Gen() *rapid.Generator[c09Case] {
 				c.Ops = append(c.Ops, c09Op{K: "flip", S: s, R: rapid.IntRange(0, 50).Draw(t, "r"), Bit: rapid.IntRange(0, 1<<20).Draw(t, "bit")})
 				notPut(s)
 			case 5:
+				if !bigMode && rapid.IntRange(0, 9).Draw(t, "putbeforerestart") < 5 { // often an empty second is the last record of its file
+					c.Ops = append(c.Ops, put(s, 40))
+					known[s]++
+					if rapid.IntRange(0, 9).Draw(t, "eraserest") < 5 { // ... and the only live one
+						c.Ops = append(c.Ops, c09Op{K: "erase", S: s, C: 3, Keep: true}, c09Op{K: "erase", S: s, R: 1, C: 3, Keep: true})
+					}
+				}
 				c.Ops = append(c.Ops, c09Op{K: "restart"})
 				for i := range lastPutSize {
 					notPut(i)
@@ -1060,7 +1137,7 @@ func c09Gen() *rapid.Generator[c09Case] {
 				}
 			default:
 				if lastPutSize[s] < 0 && rapid.IntRange(0, 9).Draw(t, "putfirst") < 8 {
-					c.Ops = append(c.Ops, put(s))
+					c.Ops = append(c.Ops, put(s, 25))
 					known[s]++
 				}
 				op := c09Op{K: "crash", S: s}
